@@ -130,7 +130,11 @@ def build_model(case):
 def generate(tier):
     slots = SHAPES_QUICK if tier == "quick" else SHAPES_THOROUGH
     keys = list(slots)
-    return [{**dict(zip(keys, combo, strict=True)), "pattern": p} for combo in it.product(*slots.values()) for p in PATTERNS]
+    cases = [{**dict(zip(keys, combo, strict=True)), "pattern": p} for combo in it.product(*slots.values()) for p in PATTERNS]
+    for (i, a), (j, b) in it.product(enumerate(SESSION_CASES), repeat=2):
+        if i != j:
+            cases.append({"family": "session", "first": a, "second": b, "pattern": "session"})
+    return cases
 
 
 def _close(a, b):
@@ -139,33 +143,8 @@ def _close(a, b):
     return abs(a - b) <= 1e-12 + 1e-12 * max(abs(a), abs(b))
 
 
-def check(case):
-    import logging
-
-    from mxlpy.meta import generate_mxlpy_code
-
-    logging.getLogger("mxlpy").setLevel(logging.CRITICAL)
-    logging.getLogger().setLevel(logging.CRITICAL)
-    m1 = build_model(case)
-    nt = not (case["pattern"] == "own" and case["derived"] == "none" and case["coef"] == "one" and case["ct"] == "none")
-    txt = f"{case}"
-    try:
-        src = generate_mxlpy_code(m1)
-    except Exception as exc:  # noqa: BLE001
-        if case["pattern"] == "untranslatable":
-            return outcome(True, "refused", nontrivial=nt)
-        return outcome(False, "generation-raised", symptom=f"generation-raised:{type(exc).__name__}", nontrivial=nt,
-                       detail=f"{type(exc).__name__}: {exc} | {txt}")
-    if case["pattern"] == "untranslatable":
-        return outcome(False, "emitted-for-untranslatable", symptom="emitted-for-untranslatable", nontrivial=nt,
-                       detail=f"a function with an augmented assignment cannot be translated, yet source was emitted | {txt}\n{src[:800]}")
-    ns = {}
-    try:
-        exec(compile(src, "<generated mxlpy>", "exec"), ns)  # noqa: S102
-        m2 = ns["create_model"]()
-    except Exception as exc:  # noqa: BLE001
-        return outcome(False, "generated-source-fails", symptom=f"generated-source-fails:{type(exc).__name__}", nontrivial=nt,
-                       detail=f"{type(exc).__name__}: {exc} | {txt}\n{src[:1500]}")
+def _compare(m1, m2, nt, txt, src):
+    """Names, kinds, initial values and values at every state; an outcome for the first difference, else None."""
     # names and kinds
     if m1.ids != m2.ids:
         d = {k: (m1.ids.get(k), m2.ids.get(k)) for k in set(m1.ids) | set(m2.ids) if m1.ids.get(k) != m2.ids.get(k)}
@@ -199,7 +178,100 @@ def check(case):
                 if not _close(float(r1[v]), float(r2[v])):
                     return outcome(False, "different", symptom="different:derivative", nontrivial=nt,
                                    detail=f"d{v}/dt at {s}, t={t}: {r2[v]} expected {r1[v]} | {txt}\n{src[:1500]}")
+    return None
+
+
+def check(case):
+    import logging
+
+    from mxlpy.meta import generate_mxlpy_code
+
+    logging.getLogger("mxlpy").setLevel(logging.CRITICAL)
+    logging.getLogger().setLevel(logging.CRITICAL)
+    if case.get("family") == "session":
+        return check_session(case)
+    m1 = build_model(case)
+    nt = not (case["pattern"] == "own" and case["derived"] == "none" and case["coef"] == "one" and case["ct"] == "none")
+    txt = f"{case}"
+    try:
+        src = generate_mxlpy_code(m1)
+    except Exception as exc:  # noqa: BLE001
+        if case["pattern"] == "untranslatable":
+            return outcome(True, "refused", nontrivial=nt)
+        return outcome(False, "generation-raised", symptom=f"generation-raised:{type(exc).__name__}", nontrivial=nt,
+                       detail=f"{type(exc).__name__}: {exc} | {txt}")
+    if case["pattern"] == "untranslatable":
+        return outcome(False, "emitted-for-untranslatable", symptom="emitted-for-untranslatable", nontrivial=nt,
+                       detail=f"a function with an augmented assignment cannot be translated, yet source was emitted | {txt}\n{src[:800]}")
+    ns = {}
+    try:
+        exec(compile(src, "<generated mxlpy>", "exec"), ns)  # noqa: S102
+        m2 = ns["create_model"]()
+    except Exception as exc:  # noqa: BLE001
+        return outcome(False, "generated-source-fails", symptom=f"generated-source-fails:{type(exc).__name__}", nontrivial=nt,
+                       detail=f"{type(exc).__name__}: {exc} | {txt}\n{src[:1500]}")
+    bad = _compare(m1, m2, nt, txt, src)
+    if bad is not None:
+        return bad
     return outcome(True, "rebuilt-equal", nontrivial=nt)
+
+
+# generated source is normally saved as a module and imported; a module file is rewritten when the model changes
+SESSION_CASES = [
+    {"nvars": 1, "coef": "one", "derived": "none", "ia": 0, "ct": "none", "pattern": "own"},
+    {"nvars": 2, "coef": "pcomp", "derived": "chain-ooo", "ia": 1, "ct": "cond", "pattern": "permuted-args"},
+    {"nvars": 1, "coef": "half", "derived": "one", "ia": 0, "ct": "time", "pattern": "same-name-first"},
+    {"nvars": 2, "coef": "pname", "derived": "ratedep", "ia": 1, "ct": "none", "pattern": "hard-literals"},
+]
+
+
+def _import_generated(path, src, tag):
+    import importlib.util
+    import os
+    import time
+
+    path.parent.mkdir(parents=True, exist_ok=True)
+    path.write_text(src)
+    # make sure the rewritten file is distinguishable for the interpreter's own line cache
+    now = time.time() + (hash(tag) % 1000)
+    os.utime(path, (now, now))
+    spec = importlib.util.spec_from_file_location(f"c11_generated_{tag}", path)
+    mod = importlib.util.module_from_spec(spec)
+    spec.loader.exec_module(mod)
+    return mod.create_model()
+
+
+def check_session(case):
+    """Two models, one after the other, through the SAME module file; each round trip is taken twice
+    (model -> source -> imported model -> source -> imported model)."""
+    import os
+    import shutil
+
+    from mxlpy.meta import generate_mxlpy_code
+
+    from mc.core import WORK_DIR, sha12
+
+    d = WORK_DIR / "C11" / f"{os.getpid()}_{sha12(case)}"
+    path = d / "model.py"
+    try:
+        for step, sub in enumerate((case["first"], case["second"])):
+            m1 = build_model(sub)
+            txt = f"session step {step} (file rewritten in place) {sub} | whole session {case}"
+            cur = m1
+            for gen in (1, 2):
+                try:
+                    src = generate_mxlpy_code(cur)
+                    cur = _import_generated(path, src, f"{sha12(case)}_{step}_{gen}")
+                except Exception as exc:  # noqa: BLE001
+                    return outcome(False, "session-generation-failed", symptom=f"session:generation-{gen}-raised:{type(exc).__name__}", nontrivial=True,
+                                   detail=f"{type(exc).__name__}: {str(exc)[:300]} | {txt}")
+                bad = _compare(m1, cur, True, f"generation {gen} " + txt, src)
+                if bad is not None:
+                    bad["symptom"] = f"session:{bad['symptom']}"
+                    return bad
+        return outcome(True, "session-rebuilt-equal", nontrivial=True)
+    finally:
+        shutil.rmtree(d, ignore_errors=True)
 
 
 def _has_unit(case):
